@@ -70,9 +70,16 @@ def adaptive_cases(quick, rng):
             s.sort(reverse=True)
         if ok_range(s):
             lists.append(s)
+    # the same lists shifted below zero (all-negative and mixed-sign score lists: 1 - distance similarities can be negative)
+    shifted = []
+    for s in lists:
+        if s and (len(s) <= 3 or rng.random() < 0.3):
+            for k in (2, 5, 9):
+                shifted.append([x - k for x in s])
+    lists += shifted
     for s in lists:
         for strat in ("abs", "rel"):
-            for thr in ((0, 2, 4, 8) if quick else (0, 1, 2, 3, 4, 6, 8)):
+            for thr in ((-4, 0, 2, 4, 8) if quick else (-8, -4, -1, 0, 1, 2, 3, 4, 6, 8)):
                 for mr in (0, 1, 2) if quick else (0, 1, 2, 3):
                     for norm in (False, True):
                         if rng.random() < (0.25 if quick else 0.5) or len(s) <= 2:
